@@ -27,6 +27,16 @@ thread_local! {
     /// (type index, address) of components that were dropped at a misaligned address
     pub static MISALIGNED: RefCell<Vec<(u64, u64)>> = RefCell::new(Vec::new());
 }
+thread_local! {
+    /// verdicts of oracles that sit where no `Out` is at hand; reported with the next operation result
+    pub static NOTES: RefCell<Vec<String>> = RefCell::new(Vec::new());
+}
+pub fn note(s: String) {
+    let _ = NOTES.try_with(|n| n.borrow_mut().push(s));
+}
+pub fn take_notes() -> Vec<String> {
+    NOTES.with(|d| std::mem::take(&mut *d.borrow_mut()))
+}
 pub fn take_misaligned() -> Vec<(u64, u64)> {
     MISALIGNED.with(|d| std::mem::take(&mut *d.borrow_mut()))
 }
